@@ -267,6 +267,23 @@ fn insert_history<K: Kern<D>, const D: usize>(cx: &mut Ctx, r: &mut Rng, idx: us
         }
     }
     op_verdicts(&mut cx.tr, 0, &dt, gpmax(D));
+    // C09 probes at the STORED position of every current vertex (perturbed ones included): an exact copy
+    // and a copy inside the tolerance must be refused as duplicates; one outside it must not be
+    let us: Vec<uuid::Uuid> = dt.vertices().map(|(_, v)| v.uuid()).collect();
+    for (i, u) in us.iter().enumerate() {
+        for kind in ["copy", "nearcopy"] {
+            let n = cx.fresh_uuid();
+            if !op_insert_copy(&mut cx.tr, 0, &mut dt, *u, kind, n, i % 2 == 0) {
+                return;
+            }
+        }
+    }
+    if let Some(u) = us.first() {
+        let mut c = dt.clone();
+        let n = cx.fresh_uuid();
+        crate::ops2::op_clone(&mut cx.tr, 0, 1, &dt);
+        op_insert_copy(&mut cx.tr, 1, &mut c, *u, "farcopy", n, false);
+    }
 }
 
 pub fn drive_insert(cx: &mut Ctx) {
@@ -365,11 +382,27 @@ fn inverse_of<K: Kern<D>, const D: usize>(dt: &Dt<K, D>, fa: &FlipArg, out: &Fli
 fn flip_case<K: Kern<D>, const D: usize>(cx: &mut Ctx, r: &mut Rng, idx: usize) {
     let g = GUARANTEES[idx % 3];
     cx.start_case(format!("C07 flips D={D} k={} i={idx}", K::NAME));
-    let pts = base_points(r, D, idx, true);
+    // D >= 4, odd cases: 9-10 points with coordinates 0..200 (flips are purely combinatorial, so the
+    // exact-geometry bound of the TLC oracles does not apply; the base enters the trace through an
+    // `Adopt` event that certifies Levels 1-2 only). Richer flip graphs than the tiny lattice gives.
+    let wide = D >= 4 && idx % 2 == 1;
+    let nwide = 9 + r.below(2);
+    let pts = if wide { random_points(r, D, nwide, 200) } else { base_points(r, D, idx, true) };
     if pts.len() < D + 1 {
         return;
     }
-    let Some(mut dt) = build_base::<K, D>(cx, &pts, g) else { return };
+    let mut dt = if wide {
+        let input = cx.inputs(&pts, true);
+        let s = cx.tr.s;
+        let vs: Vec<_> = input.iter().map(|v| v.vertex::<D>(s)).collect();
+        let Ok(d0) = Dt::<K, D>::with_topology_guarantee(&K::default(), &vs, g) else { return };
+        let post = cx.tr.project(&d0);
+        cx.tr.emit("Adopt", 0, serde_json::json!({"D": D, "why": "wide-coordinate base for combinatorial flip checks"}), serde_json::json!({}), Some(post), false);
+        d0
+    } else {
+        let Some(d0) = build_base::<K, D>(cx, &pts, g) else { return };
+        d0
+    };
     let stale_cell: Option<CellKey> = None;
     let budget = if cx.thorough { 90 } else { 36 };
     let mut done = 0usize;
@@ -428,7 +461,7 @@ fn flip_case<K: Kern<D>, const D: usize>(cx: &mut Ctx, r: &mut Rng, idx: usize) 
                     m[t] /= D as i64 + 1;
                 }
                 if r.chance(1, 4) {
-                    m = random_points(r, D, 1, max_coord(D))[0].clone();
+                    m = random_points(r, D, 1, if wide { 200 } else { max_coord(D) })[0].clone();
                 }
                 let n = cx.fresh_uuid();
                 FlipArg::K1Insert(ck, VIn::lattice(n, m, Some(7)))
@@ -449,6 +482,176 @@ fn flip_case<K: Kern<D>, const D: usize>(cx: &mut Ctx, r: &mut Rng, idx: usize) 
                 if o2.panicked {
                     return;
                 }
+            }
+        }
+    }
+    // random walk of forward flips that is NOT undone, then every inverse-type handle on the walked
+    // state: configurations where the simplex a move would insert already exists elsewhere only arise
+    // away from freshly built triangulations
+    if D >= 3 {
+        // does some triangle with exactly D-1 incident cells have a link simplex S that already exists
+        // in a cell sharing no vertex with it? (only such states distinguish a missing "inserted simplex
+        // already exists" pre-check from the later local checks)
+        let strict_hot_exists = |dt: &Dt<K, D>| -> bool {
+            if D < 4 {
+                return false;
+            }
+            use std::collections::BTreeMap;
+            let mut tri: BTreeMap<[VertexKey; 3], Vec<VertexKey>> = BTreeMap::new();
+            let mut deg: BTreeMap<[VertexKey; 3], usize> = BTreeMap::new();
+            for (_, c) in dt.cells() {
+                let mut vs: Vec<VertexKey> = c.vertices().to_vec();
+                vs.sort();
+                for a in 0..vs.len() {
+                    for b in (a + 1)..vs.len() {
+                        for e in (b + 1)..vs.len() {
+                            let k = [vs[a], vs[b], vs[e]];
+                            *deg.entry(k).or_insert(0) += 1;
+                            let u = tri.entry(k).or_default();
+                            for v in &vs {
+                                if !u.contains(v) {
+                                    u.push(*v);
+                                }
+                            }
+                        }
+                    }
+                }
+            }
+            for (k, n) in &deg {
+                if *n != D - 1 {
+                    continue;
+                }
+                if tri[k].len() != D + 2 {
+                    continue; // the star does not have the shape of a bistellar move
+                }
+                let s: Vec<VertexKey> = tri[k].iter().copied().filter(|v| !k.contains(v)).collect();
+                let with_s: Vec<_> = dt.cells().filter(|(_, c)| s.iter().all(|v| c.vertices().contains(v))).collect();
+                if !with_s.is_empty() && with_s.iter().all(|(_, c)| !k.iter().any(|v| c.vertices().contains(v))) {
+                    return true;
+                }
+            }
+            false
+        };
+        let want = if wide { if cx.thorough { 160 } else { 70 } } else if cx.thorough { 40 } else { 16 };
+        let mut okc = 0;
+        let mut tries = 0;
+        while okc < want && tries < 5 * want && !(wide && okc >= 8 && strict_hot_exists(&dt)) {
+            tries += 1;
+            // candidates with the right star size: interior facets (k=2), ridges in exactly 3 cells (k=3)
+            let mut cands: Vec<FlipArg> = Vec::new();
+            {
+                use std::collections::BTreeMap;
+                let mut ridge_deg: BTreeMap<Vec<VertexKey>, (usize, CellKey, u8, u8)> = BTreeMap::new();
+                for (ck, c) in dt.cells() {
+                    let vs = c.vertices();
+                    if let Some(nb) = c.neighbors() {
+                        for (i, n) in nb.iter().enumerate() {
+                            if n.is_some() {
+                                cands.push(FlipArg::K2(ck, i as u8));
+                            }
+                        }
+                    }
+                    for i in 0..vs.len() {
+                        for j in (i + 1)..vs.len() {
+                            let mut key: Vec<VertexKey> = vs.iter().enumerate().filter(|(t, _)| *t != i && *t != j).map(|(_, v)| *v).collect();
+                            key.sort();
+                            let e = ridge_deg.entry(key).or_insert((0, ck, i as u8, j as u8));
+                            e.0 += 1;
+                        }
+                    }
+                }
+                for (_, (n, ck, i, j)) in ridge_deg {
+                    if n == 3 {
+                        cands.push(FlipArg::K3(ck, i, j));
+                        cands.push(FlipArg::K3(ck, i, j)); // weight k=3 moves up
+                    }
+                }
+            }
+            if cands.is_empty() {
+                break;
+            }
+            let fa = r.pick(&cands).clone();
+            let out = op_flip(&mut cx.tr, 0, &mut dt, &fa, 0, "walk");
+            if out.panicked {
+                return;
+            }
+            if out.ok {
+                okc += 1;
+            }
+        }
+        if std::env::var_os("VERIF_DEBUG_WALK").is_some() {
+            eprintln!("walk D={D} wide={wide} ok={okc} tries={tries} strict_hot={} nv={} nc={}", strict_hot_exists(&dt), dt.number_of_vertices(), dt.number_of_cells());
+        }
+        // every inverse-type handle whose star has the right size, each tried on a CLONE of the walked
+        // state (so that one success does not hide the next candidate)
+        let mut inv: Vec<FlipArg> = Vec::new();
+        {
+            use std::collections::BTreeMap;
+            let mut edge_deg: BTreeMap<(VertexKey, VertexKey), usize> = BTreeMap::new();
+            let mut tri_deg: BTreeMap<(VertexKey, VertexKey, VertexKey), usize> = BTreeMap::new();
+            for (_, c) in dt.cells() {
+                let mut vs: Vec<VertexKey> = c.vertices().to_vec();
+                vs.sort();
+                for a in 0..vs.len() {
+                    for b in (a + 1)..vs.len() {
+                        *edge_deg.entry((vs[a], vs[b])).or_insert(0) += 1;
+                        for e in (b + 1)..vs.len() {
+                            *tri_deg.entry((vs[a], vs[b], vs[e])).or_insert(0) += 1;
+                        }
+                    }
+                }
+            }
+            for ((a, b), n) in edge_deg {
+                if n == D {
+                    inv.push(FlipArg::K2Inv(a, b));
+                }
+            }
+            if D >= 4 {
+                for ((a, b, e), n) in tri_deg {
+                    if n == D - 1 {
+                        inv.push(FlipArg::K3Inv(a, b, e));
+                    }
+                }
+            }
+        }
+        r.shuffle(&mut inv);
+        // steering: candidates whose would-be inserted simplex already exists somewhere else in the
+        // complex (the pre-check a correct implementation needs) go first
+        let hot = |fa: &FlipArg| -> bool {
+            let face: Vec<VertexKey> = match fa {
+                FlipArg::K2Inv(a, b) => vec![*a, *b],
+                FlipArg::K3Inv(a, b, e) => vec![*a, *b, *e],
+                _ => return false,
+            };
+            let mut union: Vec<VertexKey> = Vec::new();
+            for (_, c) in dt.cells() {
+                if face.iter().all(|f| c.vertices().contains(f)) {
+                    for v in c.vertices() {
+                        if !union.contains(v) {
+                            union.push(*v);
+                        }
+                    }
+                }
+            }
+            if union.len() != D + 2 {
+                return false;
+            }
+            let s: Vec<VertexKey> = union.into_iter().filter(|v| !face.contains(v)).collect();
+            let with_s: Vec<_> = dt.cells().filter(|(_, c)| s.iter().all(|v| c.vertices().contains(v))).collect();
+            !s.is_empty() && !with_s.is_empty() && with_s.iter().all(|(_, c)| !face.iter().any(|v| c.vertices().contains(v)))
+        };
+        let (mut first, rest): (Vec<FlipArg>, Vec<FlipArg>) = inv.into_iter().partition(|fa| hot(fa));
+        first.extend(rest);
+        let inv = first;
+        let cap = if cx.thorough { 120 } else { 40 };
+        for fa in inv.into_iter().take(cap) {
+            let mut c = crate::ops2::op_clone(&mut cx.tr, 0, 1, &dt);
+            let out = op_flip(&mut cx.tr, 1, &mut c, &fa, 0, "inverse-on-walked");
+            if std::env::var_os("VERIF_DEBUG_WALK").is_some() {
+                eprintln!("  cand {} hot={} ok={} {}", fa.mv(), hot(&fa), out.ok, out.err);
+            }
+            if out.panicked {
+                return;
             }
         }
     }
@@ -486,20 +689,31 @@ fn flip_case<K: Kern<D>, const D: usize>(cx: &mut Ctx, r: &mut Rng, idx: usize) 
             }
         }
     }
-    op_verdicts(&mut cx.tr, 0, &dt, gpmax(D));
+    if !wide {
+        op_verdicts(&mut cx.tr, 0, &dt, gpmax(D));
+    }
 }
 
 pub fn drive_flips(cx: &mut Ctx) {
-    let per_dim = if cx.thorough { 40 } else { 6 };
     for d in 2..=5usize {
+        // D = 4 gets more cases: configurations in which the simplex an inverse move would insert
+        // already exists far from the flipped star only arise there within short walks
+        let per_dim = if cx.thorough { if d == 4 { 80 } else { 40 } } else if d == 4 { 16 } else { 6 };
         for i in 0..per_dim {
             let mut r = Rng::new(cx.seed * 9_000_011 + (d * 100_000 + i) as u64);
             if !cx.mine() {
                 continue;
             }
-            let k = i % 2;
+            let k = (i / 2) % 2;
             dispatch!(d, k, flip_case(cx, &mut r, i));
         }
+    }
+    // one fixed hard configuration (found by a flip walk): a 4-D inverse k=3 move whose inserted
+    // triangle already exists in cells disjoint from the flipped star
+    // (the op list was recorded against the debug-profile construction of these points; in a profile
+    // that builds a different triangulation it simply does not apply)
+    if cx.part_k < 2 {
+        crate::drivers2::drive_c07demo(cx);
     }
 }
 
